@@ -34,6 +34,10 @@ def _limits(mem_gb):
         os.setsid()
         lim = int(mem_gb * (1 << 30))
         resource.setrlimit(resource.RLIMIT_AS, (lim, lim))
+        try:
+            resource.setrlimit(resource.RLIMIT_STACK, (resource.RLIM_INFINITY, resource.RLIM_INFINITY))
+        except (ValueError, OSError):
+            pass
     return f
 
 
@@ -224,16 +228,29 @@ def run_harness(name, timeout, stubbing=False, extra_cfg=None, logdir=None, mem_
         r["harness"] = name
         r["wall_s"] = round(dt, 2)
         r["log"] = log
-        if r["verdict"] == "FAIL":
-            # second solver run asking for the concrete values of the counterexample (trace generation over the
-            # 64 KiB message buffer is slow, so it is only paid for failures)
-            cmd = base + ["-Z", "concrete-playback", "--concrete-playback=print"]
-            log2 = os.path.join(logdir, name + ".cex.log") if logdir else None
-            rc2, out2, dt2, to2 = run_capped(cmd, HARNESS, env, max(timeout, 600), mem_gb, log2)
-            r["playback"] = [b for b in parse_playback(out2) if b["kind"] != "cover"]
-            r["cex_wall_s"] = round(dt2, 2)
     r.pop("failed", None)
     return r
+
+
+def extract_counterexample(name, timeout, extra_cfg=None, logdir=None, extra_args=None, mem_gb=40):
+    """Second solver run asking for the concrete values of the counterexample. Run one at a time after the parallel
+    phase and with a larger memory cap: trace generation over the 64 KiB message buffer is slow and memory hungry
+    (it exhausted the 10 GB job cap on harnesses whose verdict run needed 3 GB), so it is only paid for failures."""
+    env = base_env()
+    if extra_cfg:
+        env["RUSTFLAGS"] = " ".join("--cfg %s" % c for c in extra_cfg)
+    from . import gen
+    full = gen.all_harnesses().get(name, "crate::" + name).replace("crate::", "", 1) + "::" + name
+    with Worker() as w:
+        cmd = ["cargo", "kani", "--target-dir", w.dir, "--harness", full, "--exact", "-Z", "stubbing",
+               "--no-assertion-reach-checks"] + (extra_args or []) + ["-Z", "concrete-playback", "--concrete-playback=print"]
+        if extra_args and "--cbmc-args" in extra_args:
+            i = extra_args.index("--cbmc-args")
+            cmd = ["cargo", "kani", "--target-dir", w.dir, "--harness", full, "--exact", "-Z", "stubbing",
+                   "--no-assertion-reach-checks", "-Z", "concrete-playback", "--concrete-playback=print"] + extra_args[:i] + extra_args[i:]
+        log2 = os.path.join(logdir, name + ".cex.log") if logdir else None
+        rc2, out2, dt2, to2 = run_capped(cmd, HARNESS, env, max(timeout, 900), mem_gb, log2)
+    return [b for b in parse_playback(out2) if b["kind"] != "cover"], round(dt2, 2)
 
 
 # ------------------------------------------------------------------------------------------------ native playback
